@@ -330,6 +330,12 @@ func (pa *path) runInner() error {
 		case newConf := <-pa.chReloadConf:
 			pa.doReloadConf(newConf)
 
+			// the path may now belong to a configuration with a regular expression:
+			// such a path exists only while it is in use
+			if pa.shouldClose() {
+				pa.parent.closePathIfIdle(pa)
+			}
+
 		case req := <-pa.chStaticSourceSetReady:
 			pa.doSourceStaticSetReady(req)
 
